@@ -59,13 +59,16 @@ sanitize_utf8 (const char *text, size_t length)
  */
 #define SKIP(c, p, l) do { \
     if ((c) < 0x0020 || (c) == 0x007f) { \
+        if (pos + 4 >= TEXT_SIZE) /* "0x%02x" */ \
+            goto done; \
         sprintf (buf, "0x%02x", c); \
         size_t x = strlen (buf); \
         memcpy (sanitized + pos, buf, x); \
         pos += x; \
     } \
     else { \
-        assert (pos < TEXT_SIZE); \
+        if (pos + (l) >= TEXT_SIZE) /* the output is truncated */ \
+            goto done; \
         memcpy (sanitized + pos, text + p, l); \
         pos += l; \
     } \
@@ -108,6 +111,7 @@ sanitize_utf8 (const char *text, size_t length)
         }
     }
 
+done:
     /* c1 is UTF8_ERROR for ill-formed input: the copy stops there */
     sanitized[pos] = '\0';
 
